@@ -28,7 +28,11 @@ RULE = ('state = canonical store content (all rows except Token, blob tree) reac
 ASSUMPTIONS = [
     'operations are issued by the media user through the real endpoints with CSRF tokens harvested for that step',
     'ownership: Stream owns MediaFiles own Blob and error rows and key links; keys are shared and survive; a '
-    'multi-period stream owns its Periods, which own their AdaptationSets; a Period only references a Stream',
+    'multi-period stream owns its Periods, which own their AdaptationSets; a Period has mandatory references to both '
+    'its multi-period stream and its Stream and is removed with either (the other parent row stays)',
+    'a timing reference "points at an existing row" when Stream.get_timing_reference_file() - the lookup the service '
+    'itself uses: name within that stream - finds one',
+    'the status of the management request itself is not judged here (C16 judges it; props/c16.py replays this alphabet)',
     'orphan files left on disk after a row deletion are counted in evidence, not judged (the statement speaks of rows)',
     'de-duplication is on full row content including primary keys (sound; merges fewer states than a pk-free canon)',
 ]
@@ -176,6 +180,11 @@ def _(env, I, T):
                 data={'csrf_token': T['streams'], 'drm_playready': 'on', 'playready__drmloc': 'moov'})
 
 
+@action('stream defaults synenc (drm, default location)')
+def _(env, I, T):
+    return _req(env, 'POST', f'/stream/{_spk(I, "synenc")}/defaults', data={'csrf_token': T['streams'], 'drm_playready': 'on'})
+
+
 @action('delete stream synirr (POST form)', True)
 def _(env, I, T):
     return _req(env, 'POST', f'/stream/{_spk(I, "synirr")}/delete', data={'csrf_token': T['streams']})
@@ -289,7 +298,7 @@ def _(env, I, T):
 
 @action('add key (PUT explicit, duplicate kid)')
 def _(env, I, T):
-    kid = sorted(I['keys'])[0]
+    kid = sorted(I['keys'])[0] if I['keys'] else '00112233445566778899aabbccddeeff'
     return _req(env, 'PUT', f'/key?ajax=1&kid={kid}&key=00000000000000000000000000000009&csrf_token={T["kids"]}')
 
 
@@ -327,6 +336,12 @@ def _(env, I, T):
 def _(env, I, T):
     body = _mps_body(I, T, 'mpsc', [('a1', 'synirr', 'PT2S', 'PT4S', [1], None), ('a2', 'synenc', 'PT0S', 'PT5S', [1, 2], None),
                                     ('a3', 'd1', 'PT0S', 'PT2S', [1], None)])
+    return _req(env, 'PUT', '/api/multi-period-streams/.add?ajax=1', json_body=body, headers=env.rc.bearer())
+
+
+@action('create mps without periods')
+def _(env, I, T):
+    body = _mps_body(I, T, 'mpsd', [])
     return _req(env, 'PUT', '/api/multi-period-streams/.add?ajax=1', json_body=body, headers=env.rc.bearer())
 
 
@@ -469,6 +484,14 @@ def ownership_closure(R, kind, pk):
         for fpk, mf in R.get('media_file', {}).items():
             if mf['stream'] == pk:
                 out |= ownership_closure(R, 'media', fpk)
+        # a Period can not exist without its Stream (mandatory reference): it goes with either of its two parents,
+        # the multi-period stream itself is shared and stays
+        for ppk, p in R.get('period', {}).items():
+            if p['stream_pk'] == pk:
+                out.add(('period', ppk))
+                for apk, a in R.get('adaptation_set', {}).items():
+                    if a['period_pk'] == ppk:
+                        out.add(('adaptation_set', apk))
     elif kind == 'media':
         mf = R['media_file'][pk]
         out.add(('media_file', pk))
@@ -508,68 +531,150 @@ DELETES = {
 }
 
 
-def service_up(env, R, bad, acc):
-    """Every listed stream / mps serves its manifests or fails with a clean 4xx; first init+media too."""
+def _sub_digest(R, listing, spk):
+    """Everything the service reads to serve one stream: its row, files, blobs, key links + keys, error rows, disk files."""
+    s = R['Stream'].get(spk)
+    if s is None:
+        return ('missing', spk)
+    files = {k: v for k, v in R.get('media_file', {}).items() if v['stream'] == spk}
+    blobs = {v['blob']: R['Blob'].get(v['blob']) for v in files.values()}
+    links = sorted(k for k in R.get('mediafile_keys', {}) if k[0] in files)
+    keys = {k[1]: R['key'].get(k[1]) for k in links}
+    errs = {k: v for k, v in R.get('media_file_error', {}).items() if v['media_pk'] in files}
+    disk = sorted((k, v) for k, v in listing.items() if k.startswith(s['directory'] + '/'))
+
+    def strip(d):
+        return sorted((k, sorted((c, x) for c, x in (v or {}).items() if c != 'created')) for k, v in d.items())
+    return hashlib.blake2b(repr((sorted(s.items()), strip(files), strip(blobs), links, strip(keys), strip(errs), disk)).encode(),
+                           digest_size=12).digest()
+
+
+_memo = {}
+
+
+def _stream_service(env, s, acc):
+    """-> list of (clause, text) for one stream."""
     w = env.w
-    for s in R.get('Stream', {}).values():
-        for mode, tmpl, q in (('vod', 'hand_made', ''), ('live', 'hand_made', '?depth=30'), ('vod', 'manifest_e', ''),
-                              ('odvod', 'manifest_vod_aiv', '')):
-            u = f'/dash/{mode}/{s["directory"]}/{tmpl}.mpd{q}'
-            r = w.get(u)
-            acc.count('evaluations')
-            if r.status >= 500 or r.exc:
-                bad(f'manifest-5xx|{W.crash_signature(r.exc)}', f'{u} answered {r.status} {W.crash_signature(r.exc)}')
+    out = []
+    for mode, tmpl, q in (('vod', 'hand_made', ''), ('live', 'hand_made', '?depth=30'), ('vod', 'manifest_e', ''),
+                          ('odvod', 'manifest_vod_aiv', '')):
+        u = f'/dash/{mode}/{s["directory"]}/{tmpl}.mpd{q}'
+        r = w.get(u)
+        acc.count('evaluations')
+        acc.outcome(('manifest', r.status))
+        if r.status >= 500 or r.exc:
+            out.append((f'manifest-5xx|{W.crash_signature(r.exc)}', f'{u} answered {r.status} {W.crash_signature(r.exc)}'))
+            continue
+        if r.status == 200 and tmpl == 'hand_made':
+            try:
+                doc = mpd.Mpd(r.body, 'http://localhost' + u.split('?')[0])
+            except Exception as e:
+                acc.outcome(('manifest-unparsed', type(e).__name__))
                 continue
-            if r.status == 200 and tmpl == 'hand_made':
+            for rep in list(doc.all_reps())[:3]:
+                iu = rep.init_url()
+                if iu:
+                    ir = w.get(mpd.split_url(iu))
+                    acc.count('evaluations')
+                    acc.outcome(('init', ir.status))
+                    if ir.status >= 500 or ir.exc:
+                        out.append((f'init-5xx|{W.crash_signature(ir.exc)}', f'{mpd.split_url(iu)} answered {ir.status}'))
                 try:
-                    doc = mpd.Mpd(r.body, 'http://localhost' + u.split('?')[0])
-                except Exception:
+                    segs = doc.segments(rep, NOW)
+                except Exception as e:
+                    acc.outcome(('segments-unlisted', type(e).__name__))
+                    segs = []
+                if segs:
+                    sr = w.get(mpd.split_url(segs[0]['url']))
+                    acc.count('evaluations')
+                    acc.outcome(('media', sr.status))
+                    if sr.status >= 500 or sr.exc:
+                        out.append((f'media-5xx|{W.crash_signature(sr.exc)}',
+                                    f'{mpd.split_url(segs[0]["url"])} answered {sr.status}'))
+    return out
+
+
+KNOWN_UPLOADS = {'upl_v9': (UP_V, UP_V2), 'upl_a9': (UP_A,), 'upl_v9_enc': (UP_E,)}
+
+
+def _stream_readback(env, R, s, spk, acc):
+    """Uploaded files are served back byte-exactly through the on-demand range route."""
+    out = []
+    for mf in R.get('media_file', {}).values():
+        if mf['name'] not in KNOWN_UPLOADS or mf['stream'] != spk or mf['blob'] not in R['Blob']:
+            continue
+        ext = 'm4a' if mf['name'].startswith('upl_a') else 'm4v'
+        u = f'/dash/odvod/{s["directory"]}/{mf["name"]}.{ext}'
+        size = R['Blob'][mf['blob']]['size']
+        r = env.w.get(u, headers={'Range': f'bytes=0-{size - 1}'})
+        acc.count('evaluations')
+        acc.outcome(('readback', r.status, mf['rep'] is not None))
+        if r.status >= 500 or r.exc:
+            out.append((f'readback-5xx|{W.crash_signature(r.exc)}', f'{u} answered {r.status}'))
+        elif r.status in (200, 206) and r.body not in KNOWN_UPLOADS[mf['name']]:
+            out.append(('readback-differs', f'{u}: the {len(r.body)} bytes served differ from every upload made under '
+                        f'that name'))
+        elif mf['rep'] is not None and r.status not in (200, 206):
+            out.append(('readback-refused', f'{u}: an uploaded and indexed file is answered {r.status}'))
+    return out
+
+
+def service_up(env, R, bad, acc):
+    """Every listed stream / mps serves its manifests or fails with a clean 4xx; first init+media too; read-back.
+    Memoised on everything the service reads for that stream (sound: the server is deterministic at a fixed clock)."""
+    listing = mgmt.blob_listing(env.w)
+    digests = {}
+    for spk, s in R.get('Stream', {}).items():
+        dg = digests[spk] = _sub_digest(R, listing, spk)
+        if ('s', dg) not in _memo:
+            _memo[('s', dg)] = _stream_service(env, s, acc) + _stream_readback(env, R, s, spk, acc)
+        else:
+            acc.count('memo_hits')
+        for clause, text in _memo[('s', dg)]:
+            bad(clause, text)
+    for mpk, m in R.get('mp_stream', {}).items():
+        periods = {k: v for k, v in R.get('period', {}).items() if v['parent_pk'] == mpk}
+        adps = {k: v for k, v in R.get('adaptation_set', {}).items() if v['period_pk'] in periods}
+        key = ('m', repr((sorted(m.items()), sorted((k, sorted(v.items())) for k, v in periods.items()),
+                          sorted((k, sorted(v.items())) for k, v in adps.items()),
+                          sorted((p['stream_pk'], digests.get(p['stream_pk'])) for p in periods.values()))))
+        if key not in _memo:
+            out = []
+            for mode in ('vod', 'live'):
+                u = f'/mps/{mode}/{m["name"]}/hand_made.mpd' + ('?depth=20' if mode == 'live' else '')
+                r = env.w.get(u)
+                acc.count('evaluations')
+                acc.outcome(('mps-manifest', r.status))
+                if r.status >= 500 or r.exc:
+                    out.append((f'mps-manifest-5xx|{W.crash_signature(r.exc)}',
+                                f'{u} answered {r.status} {W.crash_signature(r.exc)}'))
                     continue
-                for rep in list(doc.all_reps())[:2]:
-                    iu = rep.init_url()
-                    if iu:
-                        ir = w.get(mpd.split_url(iu))
-                        acc.count('evaluations')
-                        if ir.status >= 500 or ir.exc:
-                            bad(f'init-5xx|{W.crash_signature(ir.exc)}', f'{mpd.split_url(iu)} answered {ir.status}')
+                if r.status == 200:
                     try:
-                        segs = doc.segments(rep, NOW)
-                    except Exception:
-                        segs = []
-                    if segs:
-                        sr = w.get(mpd.split_url(segs[0]['url']))
-                        acc.count('evaluations')
-                        if sr.status >= 500 or sr.exc:
-                            bad(f'media-5xx|{W.crash_signature(sr.exc)}', f'{mpd.split_url(segs[0]["url"])} answered {sr.status}')
-    for m in R.get('mp_stream', {}).values():
-        for mode in ('vod', 'live'):
-            u = f'/mps/{mode}/{m["name"]}/hand_made.mpd'
-            r = w.get(u)
-            acc.count('evaluations')
-            if r.status >= 500 or r.exc:
-                bad(f'mps-manifest-5xx|{W.crash_signature(r.exc)}', f'{u} answered {r.status} {W.crash_signature(r.exc)}')
+                        doc = mpd.Mpd(r.body, 'http://localhost' + u.split('?')[0])
+                    except Exception as e:
+                        acc.outcome(('mps-manifest-unparsed', type(e).__name__))
+                        continue
+                    for per in doc.periods[:2]:
+                        for rep in per.reps[:1]:
+                            for uu in (rep.init_url(),):
+                                if not uu:
+                                    continue
+                                ir = env.w.get(mpd.split_url(uu))
+                                acc.count('evaluations')
+                                acc.outcome(('mps-init', ir.status))
+                                if ir.status >= 500 or ir.exc:
+                                    out.append((f'mps-init-5xx|{W.crash_signature(ir.exc)}',
+                                                f'{mpd.split_url(uu)} answered {ir.status}'))
+            _memo[key] = out
+        else:
+            acc.count('memo_hits')
+        for clause, text in _memo[key]:
+            bad(clause, text)
 
 
 def byte_exact(env, R, bad, acc):
-    """Uploaded files are served back byte-exactly through the on-demand range route."""
-    known = {'upl_v9': (UP_V, UP_V2), 'upl_a9': (UP_A,), 'upl_v9_enc': (UP_E,), 'synenc_v1': None}
-    for mf in R.get('media_file', {}).values():
-        if mf['name'] not in known or known[mf['name']] is None or mf['stream'] not in R['Stream']:
-            continue
-        d = R['Stream'][mf['stream']]['directory']
-        ext = 'm4a' if mf['name'].startswith('upl_a') else 'm4v'
-        for cand in known[mf['name']]:
-            pass
-        u = f'/dash/odvod/{d}/{mf["name"]}.{ext}'
-        size = R['Blob'][mf['blob']]['size'] if mf['blob'] in R['Blob'] else None
-        if not size:
-            continue
-        r = env.w.get(u, headers={'Range': f'bytes=0-{size - 1}'})
-        acc.count('evaluations')
-        if r.status >= 500 or r.exc:
-            bad(f'readback-5xx|{W.crash_signature(r.exc)}', f'{u} answered {r.status}')
-        elif r.status == 206 and r.body not in known[mf['name']]:
-            bad('readback-differs', f'{u}: the {len(r.body)} bytes served differ from every upload made under that name')
+    return None      # folded into service_up (memoised per stream)
 
 
 # ---------------------------------------------------------------------------
@@ -579,6 +684,7 @@ def apply(env, name, fn, acc, check_all=True):
     W.set_now(NOW)
     I = env.lookup()
     pre = rows(env)
+    pre_canon = canon(env, pre)
     T = env.tokens()
     r = fn(env, I, T)
     acc.count('transitions')
@@ -611,10 +717,9 @@ def apply(env, name, fn, acc, check_all=True):
             if left:
                 bad(f'delete-left-owned|{kind}|' + ','.join(sorted({t for t, _ in left})),
                     f'deleting the {kind} left rows it owns behind: {sorted(left, key=repr)[:5]}')
-    changed = canon(env, pre) != canon(env, post)
+    changed = pre_canon != canon(env, post)
     if check_all:
         service_up(env, post, bad, acc)
-        byte_exact(env, post, bad, acc)
     return viol, post, changed
 
 
@@ -644,8 +749,6 @@ def explore(arg):
     for level in range(2, depth + 1):
         nxt = []
         for hist, snap, cookies, had_violation in frontier:
-            if had_violation:
-                continue        # do not explore beyond a violating state
             for name in names(level):
                 env.w.restore(snap)
                 env.rc.cookies_restore(cookies)
@@ -662,19 +765,19 @@ def explore(arg):
                     def bad(clause, text):
                         extra.append((f'C17|{clause}', f'after "{name}": {text}'))
                     service_up(env, post, bad, acc)
-                    byte_exact(env, post, bad, acc)
                     viol = viol + extra
                     if level < depth:
                         nxt.append((h, env.w.snapshot(), env.rc.cookies_snapshot(), bool(viol)))
-                    elif tier != 'quick' or len(seen) % 5 == 0:
-                        # differential restart: replay the history from the initial store
+                    elif len(seen) % (7 if tier == 'quick' else 3) == 0:
+                        # harness self-check: the snapshot/restore path must equal a replay of the history from the
+                        # initial store (a divergence would make every verdict of this explorer meaningless)
                         env.w.restore(env.snap0)
                         env.rc.cookies_restore(env.cookies)
                         for n2 in h:
                             apply(env, n2, table[n2], core.Acc(), check_all=False)
                         if canon(env) != key:
-                            viol = viol + [('C17|restart-differs', f'replaying {list(h)} from the initial store gives a '
-                                            f'different store than the explored path')]
+                            raise core.HarnessError(f'C17: replaying {list(h)} from the initial store differs from the '
+                                                    f'snapshot path')
                         acc.count('restart_checks')
                 if changed:
                     acc.nontriv((h,))
